@@ -68,7 +68,7 @@ func c11List(tier string) []c11Case {
 func c11Run(tier string, seed int64, idx int) *core.Result {
 	list := c11List(tier)
 	c := list[idx]
-	r := rng(seed, idx, "c11")
+	_ = seed
 	res := &core.Result{Verdict: core.Held, Sample: c, Sig: fmt.Sprintf("%+v", c), NonTrivial: true}
 	setGMP(c.GMP)
 	h := bed.NewHooks()
@@ -166,7 +166,7 @@ func c11Run(tier string, seed int64, idx int) *core.Result {
 		switch c.Mode {
 		case "handler-returns-early":
 			for i := 0; i < c.N; i++ {
-				if err := cs.SendMsg(&svc.BV{Value: payload(r, 8)}); err != nil {
+				if err := cs.SendMsg(&svc.BV{Value: msgBytes("ab", 67, i, 8)}); err != nil {
 					break
 				}
 			}
